@@ -39,7 +39,7 @@ PAIRS = [(a, b) for i, a in enumerate(G.PROTOS) for b in G.PROTOS[i + 1:]]
 
 
 def budget(tier):
-    return 3000 if tier == "quick" else 10 * 3 * 45 + 150_000
+    return 10000 if tier == "quick" else 10 * 3 * 45 + 150_000
 
 
 def wall(tier):
